@@ -9,7 +9,7 @@ from props._fa_common import TRUSTED, ASSUMPTIONS, TECHNIQUE
 PROP = "C05"
 LEVEL = "proof"
 THEOREMS = {"Properties.C05": ["C05_regex_automaton", "C05_matcher", "C05_equiv_certificate", "C05_operator_spellings_from_source", "C05_precedence_instances",
-                             "C05_to_epsilon_nfa_model", "C05_to_cfg_model", "C05_parser_reads_minimal_text", "C05_accepts_code_path", "C05_str_round_trip"],
+                             "C05_to_epsilon_nfa_model", "C05_to_cfg_model", "C05_parser_reads_minimal_text", "C05_accepts_code_path", "C05_str_round_trip", "C05_parser_mirror_reads_str_partial"],
             "Properties.C05Tie": ["C05_to_cfg_rules_from_source"]}
 LEVEL_TEXT = ("Proof + correspondence: the denotation of regular expressions, the derivative matcher (proved exact) and the exact equivalence check are "
               "machine-checked for all expressions. The documented concrete syntax is given by a reference recursive-descent parser in Gallina which is "
